@@ -221,6 +221,35 @@ Theorem C11_int_order : forall x y z,
 Proof. exact int_order. Qed.
 Print Assumptions C11_int_order.
 
+(* which operand pairs an operator family accepts, and which error it gives on the others: the nil error if either
+   operand is absent, the type error otherwise; % can in addition fail with division by zero only *)
+Theorem C11_relational_defined_iff_numeric : forall op a b,
+  (is_num a && is_num b = true -> exists r, Relational op a b = Ok (VBool r)) /\
+  (is_num a && is_num b = false -> Relational op a b = Fail (nil_or_type a b)).
+Proof. exact relational_defined. Qed.
+Print Assumptions C11_relational_defined_iff_numeric.
+
+Theorem C11_logic_defined_iff_same_kind : forall op a b,
+  ((is_int a && is_int b) || (is_boolv a && is_boolv b) = true -> exists r, Logic op a b = Ok r) /\
+  ((is_int a && is_int b) || (is_boolv a && is_boolv b) = false -> Logic op a b = Fail (nil_or_type a b)).
+Proof. exact logic_defined. Qed.
+Print Assumptions C11_logic_defined_iff_same_kind.
+
+Theorem C11_shift_mod_errors : forall op a b,
+  (is_int a && is_int b = false -> Shift op a b = Fail (nil_or_type a b) /\ Mod a b = Fail (nil_or_type a b)) /\
+  (forall e, Mod a b = Fail e -> e = ErrZeroDiv \/ e = nil_or_type a b).
+Proof.
+  intros op a b. split.
+  - intros H. split; [exact (shift_defined op a b H)|exact (proj1 (mod_defined a b) H)].
+  - exact (proj2 (mod_defined a b)).
+Qed.
+Print Assumptions C11_shift_mod_errors.
+
+Theorem C11_nil_or_type_error : forall a b,
+  (nil_or_type a b = ErrNil <-> (a = VNil \/ b = VNil)) /\ (nil_or_type a b = ErrNil \/ nil_or_type a b = ErrType).
+Proof. exact nil_or_type_cases. Qed.
+Print Assumptions C11_nil_or_type_error.
+
 (* non-vacuity *)
 Example C11_examples :
   Arith DIV (VInt (-7)) (VInt 2) = Ok (VInt (-3)) /\
